@@ -1,6 +1,6 @@
 SPECIFICATION TraceSpec
 CONSTANTS
-  Pids = {"u1","u2","u3","g1","o_pa_x","o_pa_y","o_pb_x"}
+  Pids = {"u1","u2","u3","g1","o_pa_x","o_pa_y","o_pb_x","o_pb_y"}
   Browsers = {"b1","b2"}
 INVARIANT ReportInv
 CHECK_DEADLOCK FALSE
